@@ -28,11 +28,15 @@ class FakeQueue:
         me = sim.current
         try:
             item = pickle.loads(pickle.dumps(item))
-        except Exception as e:
-            # real mp raises inside the feeder thread and drops the item; surface it loudly
-            sim.log("put-unpicklable", self.name, type(e).__name__)
-            self.mp.unpicklable.append((self.name, repr(e)))
-            raise
+        except Exception as e:  # pylint: disable=broad-except
+            # real mp.Queue.put() never raises for this: the feeder thread fails to pickle the item later,
+            # reports it through _on_queue_feeder_error and drops it -- the consumer simply never sees it
+            sim.log("put-unpicklable-dropped", self.name, type(e).__name__)
+            self.mp.unpicklable.append((self.name, repr(e)[:200]))
+            self.puts += 1
+            self.gets += 1
+            sim.yield_()
+            return
         sim.log("put", self.name, self.mp.describe(item))
         self.puts += 1
         d = self.mp.delay("feeder_delay")
